@@ -116,6 +116,7 @@ type loopCase struct {
 	Consumers int
 	PerProd   int
 	Waits     bool
+	Tokens    bool // element type struct{} (zero size): nothing to tell values apart, the oracle counts
 }
 
 type stalled struct{ msg string }
@@ -235,11 +236,77 @@ func runLoops(c loopCase) error {
 	return nil
 }
 
+// runTokens: a SyncList of zero-size elements. One producer hands out tokens (in bursts of 1..3, waiting until
+// they are consumed, so that the consumers keep contending for the last element); the oracle counts: never more
+// successful pops than pushes, Len never negative, and at the end pops == pushes, Len == 0 and Pop fails.
+func runTokens(c loopCase) error {
+	if c.Consumers < 1 || c.Consumers > 8 || c.PerProd < 1 || c.PerProd > 100000 {
+		return nil
+	}
+	l := listz.NewSync[struct{}]()
+	var pushed, popped, abort int64
+	var bad atomic.Value
+	var bodies []func()
+	bodies = append(bodies, func() {
+		start := time.Now()
+		for i := 0; i < c.PerProd; {
+			burst := 1 + i%3
+			for b := 0; b < burst && i < c.PerProd; b++ {
+				l.Push(struct{}{})
+				atomic.AddInt64(&pushed, 1)
+				i++
+			}
+			for atomic.LoadInt64(&popped) < atomic.LoadInt64(&pushed) {
+				if time.Since(start) > 60*time.Second {
+					atomic.StoreInt64(&abort, 1)
+					return
+				}
+				runtime.Gosched()
+			}
+		}
+		atomic.StoreInt64(&abort, 2) // done
+	})
+	for k := 0; k < c.Consumers; k++ {
+		bodies = append(bodies, func() {
+			for atomic.LoadInt64(&abort) == 0 {
+				if _, ok := l.Pop(); ok {
+					// the push is counted after Push returned: a pop can overtake that count by the burst size at most
+					if n := atomic.AddInt64(&popped, 1); n > atomic.LoadInt64(&pushed)+3 {
+						bad.CompareAndSwap(nil, fmt.Sprintf("%d pops succeeded although at most %d tokens had been pushed", n, atomic.LoadInt64(&pushed)+3))
+					}
+				} else {
+					runtime.Gosched()
+				}
+				if n := l.Len(); n < 0 {
+					bad.CompareAndSwap(nil, fmt.Sprintf("Len() = %d during the run", n))
+				}
+			}
+		})
+	}
+	if panics := conc.RunRaced(bodies); len(panics) > 0 {
+		return fmt.Errorf("panic in a goroutine: %v", panics[0])
+	}
+	if e := bad.Load(); e != nil {
+		return fmt.Errorf("SyncList[struct{}]: %s", e)
+	}
+	if atomic.LoadInt64(&abort) == 1 {
+		return stalled{fmt.Sprintf("token hand-over made no progress for 60s (%d pushed, %d popped)", pushed, popped)}
+	}
+	if pushed != popped || l.Len() != 0 {
+		return fmt.Errorf("SyncList[struct{}]: %d tokens pushed, %d popped, Len() = %d at the end", pushed, popped, l.Len())
+	}
+	if _, ok := l.Pop(); ok {
+		return fmt.Errorf("SyncList[struct{}]: Pop succeeds on the drained list")
+	}
+	return nil
+}
+
 func TestRacedLoops(t *testing.T) {
 	st := pb.Stats("synclist_raced_loops")
-	st.SetRule("1-4 producers x 200-3000 values and 1-4 consumers spinning on a SyncList on real goroutines under the race detector, with an observer calling Len; oracle: every value comes out exactly once, per consumer the values of one producer arrive in increasing order, Len never negative, list empty afterwards; every drawn configuration is a case, non-trivial = >= 2 producers and >= 2 consumers")
+	st.SetRule("1-4 producers x 200-3000 values and 1-4 consumers spinning on a SyncList on real goroutines under the race detector, with an observer calling Len; oracle: every value comes out exactly once, per consumer the values of one producer arrive in increasing order, Len never negative, list empty afterwards; a quarter of the cases use the zero-size element type struct{} with one producer handing tokens over in bursts of 1..3 and a counting oracle (pops never ahead of pushes, Len never negative, balanced at the end); every drawn configuration is a case, non-trivial = >= 2 producers and >= 2 consumers")
 	gen := rapid.Custom(func(t *rapid.T) loopCase {
-		return loopCase{Producers: rapid.IntRange(1, 4).Draw(t, "p"), Consumers: rapid.IntRange(1, 4).Draw(t, "c"), PerProd: rapid.IntRange(200, 3000).Draw(t, "n")}
+		return loopCase{Producers: rapid.IntRange(1, 4).Draw(t, "p"), Consumers: rapid.IntRange(1, 4).Draw(t, "c"), PerProd: rapid.IntRange(200, 3000).Draw(t, "n"),
+			Tokens: rapid.IntRange(0, 3).Draw(t, "tokens") == 0}
 	})
 	n := pb.Scaled(40)
 	for i := 0; i < n; i++ {
@@ -248,7 +315,11 @@ func TestRacedLoops(t *testing.T) {
 		if cur := os.Getenv("VERIF_CURRENT_CASE"); cur != "" {
 			os.WriteFile(cur, wrapReplay("synclist_raced_loops", js), 0o644)
 		}
-		if err := runLoops(c); err != nil {
+		run := runLoops
+		if c.Tokens {
+			run = runTokens
+		}
+		if err := run(c); err != nil {
 			if _, inc := err.(stalled); inc {
 				st.Note("%v: %s", err, js)
 				t.Fatalf("NO-VERDICT %v", err)
@@ -259,6 +330,7 @@ func TestRacedLoops(t *testing.T) {
 		rec := &pb.Rec{}
 		rec.NonTrivialIf(c.Producers >= 2 && c.Consumers >= 2)
 		rec.ClassIf(c.Producers >= 2 && c.Consumers >= 2, "MPMC")
+		rec.ClassIf(c.Tokens, "zero-size element type (struct{}), counted tokens")
 		st.Case(js, rec)
 	}
 }
@@ -270,7 +342,11 @@ func init() {
 			return fmt.Errorf("BADREPLAY: %v", err)
 		}
 		for i := 0; i < 20; i++ {
-			if err := runLoops(c); err != nil {
+			run := runLoops
+			if c.Tokens {
+				run = runTokens
+			}
+			if err := run(c); err != nil {
 				return err
 			}
 		}
